@@ -99,6 +99,17 @@ returns an error under `err != nil` and nil only at top level - no error kind is
 theorem c09_x_host_nil_only_on_success :
     sendBulkToHostReturns = ["err != nil => fmt.Errorf", " => nil"] := by decide
 
+/-- the circuit breaker wrapper adds no way to succeed: `Execute` runs the callback inside the circuit with NO
+fallback function (a fallback's result would replace the attempt's error) and returns exactly the circuit's error, so
+a shard attempt is reported successful only if the callback - the replica loop of `shard.Bulk` - returned nil; an
+execution timeout, an open circuit and a concurrency rejection all surface as errors (`Call.open` and `Call.exec _ true` of the
+model are failed attempts) -/
+theorem c09_x_breaker_execute_transparent :
+    breakerExecuteStmts =
+      ["err := cb.Circuit.Execute(ctx, func(ctx context.Context) error { return callback(ctx) }, nil)",
+       "if err != nil { return fmt.Errorf(\"circuit breaker execute: %w\", err) }",
+       "return err"] := rfl
+
 /-! ## Non-vacuity: the hypotheses are met by concrete non-trivial runs -/
 
 /-- 1 hot shard x 2 replicas: first attempt half-fails, second attempt completes the same shard -> acknowledged -/
